@@ -68,6 +68,13 @@ impl Randomable<f64> for Range<f64> {
     fn gen_from_u64(self, rng: u64) -> f64 {
         assert!(!self.is_empty());
         let len = self.end - self.start;
-        (rng as f64 / u64::MAX as f64) * len + self.start
+        // 53 random bits give a uniform fraction in [0, 1); `rng / u64::MAX` could be exactly 1
+        let x = (rng >> 11) as f64 / (1u64 << 53) as f64 * len + self.start;
+        // rounding in the scaling may still land on `end`
+        if x < self.end {
+            x
+        } else {
+            self.start
+        }
     }
 }
